@@ -49,14 +49,30 @@ def _mk_parent(e, hd):
 
 
 @with_env("hd")
-def _child_path(e, hardened):
+def _child_path(e, hardened, prior=False):
     hd = loader.load("hd")
     F = e.fld
     k, cc, depth, pfp, cn, parent = _mk_parent(e, hd)
     idx = SI.var("index", 0x80000000 if hardened else 0, 0xFFFFFFFF if hardened else 0x7FFFFFFF)
+    if prior:
+        # history: the same parent objects (private and public) have already derived other children
+        idx0 = SI.var("index0", 0, 0xFFFFFFFF)
+        idx0p = SI.var("index0p", 0, 0x7FFFFFFF)
+        # ... and an unrelated extended key with the same key material but another chain code has derived the very same index
+        cc2 = SBytes.sym("cc2", 32)
+        twin = hd.HDPrivateKey(e.pecc.PrivateKey(k), cc2, depth=depth, parent_fingerprint=pfp, child_number=cn, network="mainnet")
+        for f, i0 in ((parent.child, idx0), (parent.pub.child, idx0p), (twin.child, idx), (twin.pub.child, idx)):
+            try:
+                f(i0)
+            except (ValueError, RuntimeError):   # IL >= n or a zero child key (probability 2^-127), hardened public derivation: refused
+                pass
 
     def wit(env):
-        return {"k": env["k"], "cc": bytes_env(env, "cc", 32).hex(), "index": env["index"], "depth": env["depth"]}
+        w = {"k": env["k"], "cc": bytes_env(env, "cc", 32).hex(), "index": env["index"], "depth": env["depth"]}
+        if prior:
+            w["index0"], w["index0p"] = env["index0"], env["index0p"]
+            w["cc2"] = bytes_env(env, "cc2", 32).hex()
+        return w
     # specification (BIP32 CKDpriv / CKDpub)
     psec = spec_sec(e, k)
     if hardened:
@@ -97,7 +113,7 @@ def _child_path(e, hardened):
 
 
 def ob_child():
-    runs = [sym_run(lambda: _child_path(h), mode="int", timeout_ms=60000) for h in (False, True)]
+    runs = [sym_run(lambda: _child_path(h, pr), mode="int", timeout_ms=60000) for h in (False, True) for pr in (False, True)]
     m = merge_runs(runs)
     for cls in ("'hardened'", "'normal'"):
         if cls not in m["classes"]:
@@ -123,19 +139,48 @@ def replay_child(w):
     from buidl import hd, pecc
     k, cc, i = w["k"], bytes.fromhex(w["cc"]), w["index"]
     parent = hd.HDPrivateKey(pecc.PrivateKey(k), cc, depth=w.get("depth", 0))
+    if "index0" in w:
+        cc2 = bytes.fromhex(w["cc2"])
+        if cc2 == cc:
+            cc2 = bytes([cc[0] ^ 1]) + cc[1:]
+        twin = hd.HDPrivateKey(pecc.PrivateKey(k), cc2, depth=w.get("depth", 0))
+        for f in (twin.child, twin.pub.child):
+            try:
+                f(i)
+            except (ValueError, RuntimeError):
+                pass
+        i0s = [w["index0"], i ^ 1, i ^ 0x80000000]
+        for i0 in i0s:
+            try:
+                parent.child(i0)
+                parent.pub.child(w["index0p"] if i0 == w["index0"] else i0 & 0x7FFFFFFF)
+            except (ValueError, RuntimeError):
+                pass
     ck, ccc = ref_ckd_priv(k, cc, i)
     ch = parent.child(i)
-    bad = ch.private_key.secret != ck or ch.chain_code != ccc or ch.pub.point != ck * pecc.G or ch.depth != w.get("depth", 0) + 1
+    probs = []
+    if ch.private_key.secret != ck:
+        probs.append("private child secret")
+    if ch.chain_code != ccc:
+        probs.append("private child chain code")
+    if ch.pub.point != ck * pecc.G:
+        probs.append("private child's public point")
+    if ch.depth != w.get("depth", 0) + 1:
+        probs.append("depth")
     if i < 0x80000000:
         pc = parent.pub.child(i)
-        bad = bad or pc.point != ck * pecc.G or pc.chain_code != ccc
+        if pc.point != ck * pecc.G:
+            probs.append("public child point != private child neutered")
+        if pc.chain_code != ccc:
+            probs.append("public child chain code")
     else:
         try:
             parent.pub.child(i)
-            bad = True
+            probs.append("hardened public derivation not refused")
         except ValueError:
             pass
-    return {"violated": bad, "observed": f"k={k:#x} index={i}: secret ok={ch.private_key.secret == ck}"}
+    hist = " (after earlier derivations on the same parent objects and on an extended key with the same key and another chain code)" if "index0" in w else ""
+    return {"violated": bool(probs), "observed": f"k={k:#x} chain code {cc.hex()} index={i}{hist}: differs from BIP32 in {probs or 'nothing'}"}
 
 
 # ---------------------------------------------------------------------------------------- O2 codec
@@ -336,9 +381,104 @@ def replay_traverse(w):
     return {"violated": got.private_key.secret != ck or got.chain_code != ccc, "observed": f"path {w['path']}"}
 
 
+# ---------------------------------------------------------------------------------------- O4 path bookkeeping of blind_xpub (concrete)
+
+def ref_parse_path(path):
+    """independent BIP32 path reader: 'm', then /index with an optional hardened marker (', h or H)"""
+    t = path.strip()
+    assert t[:1] in ("m", "M"), path
+    out = []
+    for comp in [c for c in t[1:].split("/") if c != ""]:
+        hard = comp[-1] in "'hH"
+        n = int(comp[:-1] if hard else comp)
+        assert 0 <= n < 2 ** 31, path
+        out.append(n + (0x80000000 if hard else 0))
+    return out
+
+
+def path_shapes(maxc):
+    comps = [f"{i}{mk}" for i in (0, 44, 2147483647) for mk in ("", "'", "h", "H")]
+    out = ["m"]
+    level = ["m"]
+    for _ in range(maxc):
+        level = [p + "/" + c for p in level for c in comps]
+        out += level
+    return out
+
+
+def _path_facts(mod_blinding, mod_hd, maxc, nblind):
+    """combine_bip32_paths(a, b) reads as index list(a) + index list(b) for every pair of renderings; blind_xpub returns the key at
+    the combined path from the root.  Strings carry no symbolic content in this engine, so this obligation is an enumerated
+    structural fact (engine 'concrete', not solver evidence); every failure is replayed on the native code."""
+    paths = path_shapes(maxc)
+    variants = lambda p: (p, " " + p + " ", p.upper() if p != "m" else "M")  # noqa
+    for a in paths:
+        for b in paths:
+            for av in variants(a)[:2 if len(paths) > 200 else 3]:
+                try:
+                    got = mod_blinding.combine_bip32_paths(av, b)
+                    if ref_parse_path(got) != ref_parse_path(a) + ref_parse_path(b):
+                        return False, {"first": av, "second": b, "got": got}
+                except Exception as ex:
+                    return False, {"first": av, "second": b, "got": "raised " + repr(ex)}
+    # blind_xpub on a few starting depths with hardened tails in every notation
+    root = mod_hd.HDPrivateKey.from_seed(bytes(range(1, 33)), network="mainnet")
+    count = 0
+    for sp in [p for p in paths if p != "m"][:nblind] + ["m/48'/0'/0'/2'", "m/48h/0h/0h/2h", "m/1'", "m/0/2147483647'"]:
+        acct = root.traverse(sp)
+        for secret in ("m/5/7", "m/2147483647/0/1", "m/3"):
+            try:
+                r = mod_blinding.blind_xpub(acct.xpub(), sp, secret)
+                full = r["blinded_full_path"]
+                if ref_parse_path(full) != ref_parse_path(sp) + ref_parse_path(secret) or root.traverse(full).xpub() != r["blinded_child_xpub"]:
+                    return False, {"blind": [sp, secret], "got": full}
+            except Exception as ex:
+                return False, {"blind": [sp, secret], "got": "raised " + repr(ex)}
+            count += 1
+    return True, {"pairs": len(paths) ** 2, "blinded": count}
+
+
+def ob_paths(maxc, nblind):
+    from symx import loader as _l
+    bl, hdm = _l.native("blinding"), _l.native("hd")
+    res = {}
+
+    def fn():
+        ok, d = _path_facts(bl, hdm, maxc, nblind)
+        res["d"] = d
+        return ok, (f"{d}" if ok else f"path bookkeeping differs from index-list concatenation: {d}")
+    fn()
+    ok = "pairs" in res["d"]
+    return conc_run(lambda: (ok, str(res["d"])), "combine_bip32_paths / blind_xpub: combined path == concatenated index lists, key at combined path == blinded key",
+                    replay="paths", witness=res["d"] if not ok else {})
+
+
+def replay_paths(w):
+    from buidl import blinding, hd
+    if "blind" in w:
+        sp, secret = w["blind"]
+        root = hd.HDPrivateKey.from_seed(bytes(range(1, 33)), network="mainnet")
+        try:
+            r = blinding.blind_xpub(root.traverse(sp).xpub(), sp, secret)
+        except Exception as ex:
+            return {"violated": True, "observed": f"blind_xpub(xpub at {sp!r}, {sp!r}, {secret!r}) raised {ex!r}"}
+        full = r["blinded_full_path"]
+        bad = ref_parse_path(full) != ref_parse_path(sp) + ref_parse_path(secret) or root.traverse(full).xpub() != r["blinded_child_xpub"]
+        return {"violated": bad, "observed": f"blind_xpub(xpub at {sp!r}, {sp!r}, {secret!r}) -> full path {full!r}; the key at that path from the root "
+                                             f"{'is not' if bad else 'is'} the blinded child key"}
+    a, b = w["first"], w["second"]
+    try:
+        got = blinding.combine_bip32_paths(a, b)
+    except Exception as ex:
+        return {"violated": True, "observed": f"combine_bip32_paths({a!r}, {b!r}) raised {ex!r}"}
+    want = ref_parse_path(a) + ref_parse_path(b)
+    return {"violated": ref_parse_path(got) != want, "observed": f"combine_bip32_paths({a!r}, {b!r}) = {got!r}; index lists {ref_parse_path(got)} vs {want}"}
+
+
 def obligations(tier):
     q = tier == "quick"
     return [Ob("O1-child", ob_child, replay="child"), Ob("O2-codec", ob_codec, {"priv": True}, replay="codec"),
             Ob("O2-codec", ob_codec, {"priv": False}, replay="codec"), Ob("O2-codec-history", ob_codec_history, replay="codec_history"),
+            Ob("O4-blinding-paths-concrete", ob_paths, {"maxc": 2, "nblind": 30 if q else 157}, replay="paths"),
             Ob("O3-traverse", ob_traverse, {"which": tuple(p for p, _ in PATHS)}, replay="traverse", budget_s=1800)] + \
         ([] if q else [Ob("O3-traverse", ob_traverse, {"which": (p,)}, replay="traverse", budget_s=6000) for p, _ in LONG_PATHS])
